@@ -41,8 +41,9 @@ def main():
             if not skip_suite:
                 ok, tail = build_and_test(); res['suite_with_change'] = dict(passed=ok, tail=tail[-300:])
             rc1, out1 = demo(meta, d); res['demo_with_change'] = dict(rc=rc1, tail=out1[-600:])
-            checks = dict(meta.get('confirmed', {}).get('xv_checks_with_change', {})) if suite_only else {}
-            for pid in ([] if suite_only else meta.get('check_properties', [meta['property']])):
+            only = [x for x in os.environ.get('SEED_ONLY_PROPS', '').split(',') if x]      # re-run the checks of these properties only, keep the other records
+            checks = dict(meta.get('confirmed', {}).get('xv_checks_with_change', {})) if (suite_only or only) else {}
+            for pid in ([] if suite_only else [q for q in meta.get('check_properties', [meta['property']]) if not only or q in only]):
                 rcx, outx = sh('cd /verif && XV_REPLAYS=%s_replays XV_REPO=%s ./xv check %s --tier quick --no-evidence' % (WT, WT, pid), timeout=3600)
                 checks[pid] = dict(rc=rcx, lines=[l for l in outx.splitlines() if l.startswith(('VIOLATION', 'xv:'))][-6:])
             res['xv_checks_with_change'] = checks
